@@ -995,6 +995,47 @@ pub fn attr_qname(args: &[String]) -> i32 {
     let mut n = 0usize;
     for_each_case(inp, |c| {
         let text = cps_to_string(&c["text"]);
+        if c["kind"] == "shared" {
+            // one entity referenced in an attribute value and in content: read in either order, in both views
+            for expanded in [false, true] {
+                for order in ["content-first", "attr-first"] {
+                    let mut ev = json!({"event": "shared", "ty": c["ty"], "order": order, "expanded": expanded, "parsed": false,
+                                        "attr": [], "content": []});
+                    let t2 = text.clone();
+                    let got = guarded(move || -> Option<(String, String)> {
+                        use xml_dom::AsStringValue;
+                        let doc = parse(&t2, expanded)?;
+                        let r = root(&doc)?;
+                        let content = |r: &xml_dom::XmlElement| -> Option<String> {
+                            let mut s = String::new();
+                            for k in r.child_nodes().iter() {
+                                match &k {
+                                    // raw view: the reference node's value is the replacement text
+                                    XmlNode::EntityReference(e) => s.push_str(&e.value().ok()?),
+                                    other => s.push_str(&other.as_string_value().ok()?),
+                                }
+                            }
+                            Some(s)
+                        };
+                        if order == "content-first" {
+                            let cstr = content(&r)?;
+                            Some((r.get_attribute("x"), cstr))
+                        } else {
+                            let a = r.get_attribute("x");
+                            Some((a, content(&r)?))
+                        }
+                    });
+                    if let Ok(Some((a, cstr))) = got {
+                        ev["parsed"] = json!(true);
+                        ev["attr"] = string_to_cps(&a);
+                        ev["content"] = string_to_cps(&cstr);
+                    }
+                    writeln!(out, "{}", ev).unwrap();
+                    n += 1;
+                }
+            }
+            return;
+        }
         if c["kind"] == "elem" {
             for expanded in [false, true] {
                 let mut ev = json!({"event": "elemq", "decl": c["decl"], "expanded": expanded, "parsed": false, "kids": []});
